@@ -11,7 +11,7 @@ RULE = ('corpus; exhaustive scope: all 65536 boolean 4x4 images x {4,8}-neighbou
         'seeded slice, as block cases); random 1-3 D arrays x bool/int/float dtypes (both signs, -0.0) x 7 layouts x '
         'elements None/4/8/6/box/arbitrary 3^d/other odd and even shapes/larger than the image/empty, with and '
         'without an int32 out= buffer. Labels are compared exactly with the Lean specification (no canonicalisation). '
-        'Non-trivial = at least two foreground pixels and one background pixel or >= 2 components; '
+        '2 % of the random images have a zero-length axis. Non-trivial = at least two foreground pixels and one background pixel or >= 2 components; '
         'distinct = distinct (shape, binarised data, element).')
 ASSUMPTIONS = ['no NaN pixels (NaN != 0 is true in numpy, nothing else is assumed about it)',
                'the offsets of an element are k - shape//2 (the library-wide centre convention), also for even sizes',
@@ -221,6 +221,8 @@ def cases(rng, tier):
     for _ in range(nrand):
         dtype = rng.choice(DTYPES)
         shape = list(gen.small_shape(rng, maxlen=7))
+        if rng.random() < 0.02:
+            shape[rng.randrange(len(shape))] = 0        # an empty image
         bc, etag = _rand_elem(rng, shape)
         out.append(dict(dtype=dtype, shape=shape, data=_rand_values(rng, dtype, int(np.prod(shape))), bc=bc, etag=etag,
                         layout=rng.choice(gen.LAYOUTS), out=rng.random() < 0.15))
